@@ -130,6 +130,13 @@ def _push_derived(m, r, cg, f: FuncInfo, name: str, depth=0) -> bool:
             for it in n.items:
                 if isinstance(it.optional_vars, ast.Name) and it.optional_vars.id == name and isinstance(it.context_expr, ast.Call):
                     t = m.resolve_call(f, it.context_expr)
+                    if t.kind == "func" and any("contextmanager" in norm(d) for d in t.target.decorators):
+                        # generator-based manager: what it yields is what `as name` is bound to
+                        ys = [x.value for x in walk_scope(t.target.node) if isinstance(x, ast.Yield)]
+                        if ys and all(isinstance(v, ast.Name) and _push_derived(m, r, cg, t.target, v.id, depth + 1) for v in ys):
+                            return True
+                        if ys and all(isinstance(v, ast.Call) and r.role_of_call(t.target, v) == "push_shape_memo" for v in ys):
+                            return True
                     if t.kind == "class":
                         en = m.lookup_method(t.target, "__enter__")
                         if en is not None:
